@@ -1,8 +1,10 @@
 #!/opt/veriftools/pyvenv/bin/python
-import json, jsonschema, glob, sys
+import json, jsonschema, glob, os, sys
 jsonschema.validate(json.load(open('/verif/MANIFEST.json')), json.load(open('/root/.vp/MANIFEST.schema.json')))
 s = json.load(open('/root/.vp/EVIDENCE.schema.json'))
 for f in sorted(glob.glob('/verif/evidence/*.json')):
     jsonschema.validate(json.load(open(f)), s)
+    if os.path.getsize(f) > 1_000_000:
+        sys.exit(f'{f}: {os.path.getsize(f)} bytes - evidence files must stay below 1 MB')
     print('valid', f)
 print('manifest valid')
